@@ -128,20 +128,20 @@ def run (j : Json) : Except String Json := do
   let newMode ← getNat j "newMode"
   let univ ← getStrs j "universe"
   let exts ← getExts j "exts"
-  let (res, ow) ← match kind with
+  let (res, ow, inv) ← match kind with
     | "save" => do
         let cfg : Cfg := ⟨⟨← getStr j "dest", newMode⟩, ← getTensors j "tensors", cb⟩
-        pure (save cfg f 0 s0, overwritten cfg s0)
+        pure (save cfg f 0 s0, overwritten cfg s0, invalidated cfg s0)
     | "unload" => do
         let cfg : Cfg := ⟨⟨← getStr j "dest", newMode⟩, ← getTensors j "tensors", cb⟩
-        pure (unload cfg (← getExts j "small") f s0, overwritten cfg s0)
+        pure (unload cfg (← getExts j "small") f s0, overwritten cfg s0, invalidated cfg s0)
     | "sharded" => do
         let jobs ← (← getArr j "jobs").mapM fun x => do
           let a ← (fromJson? x : Except String (Array Json))
           let d ← (fromJson? a[0]! : Except String String)
           let ts ← (← (fromJson? a[1]! : Except String (Array Json))).toList.mapM getTensor
           return (d, ts)
-        pure (saveSharded newMode cb jobs f s0, [])
+        pure (saveSharded newMode cb jobs f s0, [], [])
     | k => throw s!"unknown kind {k}"
   let crash := match res.steps.find? (·.failed) with
     | some st => stJ univ exts st.st
@@ -151,7 +151,8 @@ def run (j : Json) : Except String Json := do
     ("raised", Json.bool res.faulted),
     ("final", stJ univ exts res.final),
     ("crash", crash),
-    ("overwritten", natsJ ow)]
+    ("overwritten", natsJ ow),
+    ("invalidated", natsJ inv)]
 
 def handle : Handler := fun m j =>
   match m with
